@@ -257,7 +257,12 @@ class System:
 
     def canon(self):
         p = self.fr._prh
-        fs = tuple((lp.logPass.frameSet.frames.shape if lp.logPass.frameSet is not None else None) for lp in self.passes)
+        def shape(lp):
+            try:
+                return lp.logPass.frameSet.frames.shape if lp.logPass.frameSet is not None else None
+            except AttributeError:
+                return 'no frame set attribute'
+        fs = tuple(shape(lp) for lp in self.passes)
         hidden = tuple(bfs.generic_state(lp.logPass._plan, depth=1) for lp in self.passes)
         return fs + (p.stream.tell(), p._ldIndex, p._ldTell, p._mustReadHead, p.isEOF, p.prAttr & 3, p.ldLen, hidden)
 
@@ -430,7 +435,15 @@ def check_accessors(spec, model, fs, frames, cols, sl, chs):
 
 
 def step(system, op, check):
-    """op = ['load', pass index, [a,b,s] or None, channel list or None]"""
+    """op = ['load', pass index, [a,b,s] or None, channel list or None]
+    or ['badload', pass index, channel list naming a channel that does not exist]: a request the library may refuse however it
+    likes (it is outside the statement) - what is judged is that the loads *after* it are still exact."""
+    if op[0] == 'badload':
+        try:
+            system.passes[op[1]].logPass.setFrameSet(system.fr, None, list(op[2]))
+        except Exception:  # noqa
+            pass
+        return []
     _, k, sl, chs = op
     p = system.pass_list[k]
     spec, model = p['spec'], p['model']
@@ -708,6 +721,7 @@ def h_menu():
         for sl in (None, [0, 1, 1], [0, n, 2], [n - 1, n, 1], [1, n, 1]):
             for cs in ((None, [1], [0], [1, 3], [2, 3], [0, 2, 3]) if k == 0 else (None, [1], [0])):
                 ops.append(['load', k, sl, cs])
+        ops.append(['badload', k, [1, 99]])
     return ops
 
 
